@@ -141,6 +141,12 @@ func buildByHistory(rng *rand.Rand, pats []string, detours []string, method stri
 		txn.Handle(method, dp, h(dp))
 	}
 	txn.Abort()
+	// and each detour alone, as the first write of its transaction (the one that meets the published nodes themselves)
+	for _, dp := range detours {
+		txn := rt.Txn(true)
+		txn.Handle(method, dp, h(dp))
+		txn.Abort()
+	}
 	_ = rt.Updates(func(txn *fox.Txn) error {
 		for i := len(detours) - 1; i >= 0; i-- {
 			txn.Handle(method, detours[i], h(detours[i]))
